@@ -11,7 +11,8 @@ from vf.runner import REPO_SRC, VERIF_DIR, Fail, HarnessError
 RULE = ('Differential across processes: Hypothesis draws (shell model, configuration) pairs with >= 2 '
         'names in an explicit port selection (and some without); each pair is built in child '
         'interpreters started with different PYTHONHASHSEED values x different construction orders of '
-        'the name sets, in warm batch workers and in a fresh process per case; oracle: all variants '
+        'the name sets, in warm batch workers (fresh Builder per build, and one Builder instance reused '
+        'for the whole batch) and in a fresh process per case; oracle: all variants '
         'agree on file names, sha256 of the contents and reported hashes (or all fail with the same '
         'error class), and every reported hash equals md5 of the UTF-8 contents. Non-trivial: >= 2 '
         'explicit names in a selection; distinct by hash of (model, spec).')
@@ -20,13 +21,13 @@ ASSUMPTIONS = ['hash seeds explored: 0, 1, 2, 3 and 1000+VERIF_SEED (quick: 0, 1
                'ordered name lists (vf/cfgspec.py)']
 
 
-def run_worker(cases, hashseed, perm):
+def run_worker(cases, hashseed, perm, shared_builder=False):
     env = dict(os.environ)
     env['PYTHONHASHSEED'] = str(hashseed)
     env['PYTHONPATH'] = os.pathsep.join([REPO_SRC, VERIF_DIR, os.path.join(VERIF_DIR, '.deps')])
     env['PYTHONDONTWRITEBYTECODE'] = '1'
-    data = ''.join(json.dumps({'model': c['sm']['model'], 'spec': c['spec'], 'perm': perm}) + '\n'
-                   for c in cases)
+    data = ''.join(json.dumps({'model': c['sm']['model'], 'spec': c['spec'], 'perm': perm,
+                               'shared_builder': shared_builder}) + '\n' for c in cases)
     r = subprocess.run([sys.executable, '-m', 'vf.worker'], input=data, capture_output=True,
                        text=True, env=env, cwd=VERIF_DIR, timeout=3600, check=False)
     lines = [json.loads(l) for l in r.stdout.splitlines() if l.strip()]
@@ -66,7 +67,16 @@ def compare(case, variants):
 
 
 def check_case(case):
-    """Replay: build this one case under all variants (fresh processes)."""
+    """Replay: build this one case under all variants (fresh processes).  A case with a 'batch' is a
+    sequence of cases built by one Builder instance in one process; its last element is compared
+    with the same case built alone."""
+    if 'batch' in case:
+        batch = case['batch']
+        alone = run_worker([batch[-1]], 0, 0)[0]
+        together = run_worker(batch, 0, 0, True)[-1]
+        compare(batch[-1], [('built alone', alone),
+                            ('one Builder instance reused for the whole batch', together)])
+        return
     variants = []
     for hs in (0, 1, 2, 3, 17):
         for perm in (0, 1, 2):
@@ -100,6 +110,7 @@ def run(ctx):
         # fresh process per case for a subset (first build of the process)
         fresh_idx = list(range(0, len(cases), max(1, len(cases) // (12 if ctx.quick else 100))))
         fresh = list(ex.map(lambda i: run_worker([cases[i]], 1, 1)[0], fresh_idx))
+        shared = ex.submit(run_worker, cases, 0, 0, True).result()  # one Builder for all cases
     seen = set()
     for i, case in enumerate(cases):
         nt = n_explicit(case['spec']) >= 2
@@ -108,13 +119,25 @@ def run(ctx):
         variants = [(f'hashseed={hs}/order={p}', results[k][i]) for k, (hs, p) in enumerate(jobs)]
         if i in fresh_idx:
             variants.append(('fresh process hashseed=1/order=1', fresh[fresh_idx.index(i)]))
+        variants.append(('one Builder instance reused for the whole batch', shared[i]))
         try:
             compare(case, variants)
         except Fail as f:
             sig = f'{name}:{f.sig}'
             if sig not in seen:
                 seen.add(sig)
-                ctx.add_violation(name, f, case)
+                rcase = case
+                if 'one Builder instance' in f.msg:
+                    # history dependent: find an earlier case that, built first by the same
+                    # Builder, reproduces the deviation (else keep the whole prefix)
+                    rcase = {'batch': cases[:i + 1]}
+                    for j in range(i):
+                        try:
+                            check_case({'batch': [cases[j], case]})
+                        except Fail:
+                            rcase = {'batch': [cases[j], case]}
+                            break
+                ctx.add_violation(name, f, rcase)
             else:
                 ctx.excluded[sig] += 1
     ctx.evaluations += len(cases) * (len(jobs) - 1) + len(fresh_idx)
